@@ -866,6 +866,11 @@ pub fn proxy_set_prototype_of(
                     JsValue::Object(p) => Some(p),
                     _ => return Err(JsError::type_error("Prototype must be object or null")),
                 };
+                if let Some(p) = &new_proto
+                    && crate::value::prototype_chain_reaches(p, &obj)
+                {
+                    return Ok(false);
+                }
                 obj.borrow_mut().prototype = new_proto;
                 return Ok(true);
             }
